@@ -10,7 +10,7 @@ from .existmodel import AllModel
 TREE_NAMES = ["a", "a-b", "a.b", "a+b", "ab", "b", "oph", "ophelia", "x_rig", "B", "rig",
               "cafe\u0301", "\U0001F600hero", "Ophelia", "x.data.json", "a\nb",
               "Thumbs.db", "lost+found", "@eaDir", "desktop.ini", "constable", "nul",
-              "sword2", "sword10", "sofa", "tiara", "caf\udce9"]     # (names with a meaning on other systems are names)
+              "sword2", "sword10", "sofa", "tiara", "caf\udce9", "tree{2}", "treee"]     # (names with a meaning on other systems are names)
 
 
 class Lab:
@@ -165,6 +165,9 @@ def run_find(finder, s, as_sid=False):
 
 
 def filter_is_unspecified(s):
+    """Searches the statements do not speak about: url characters in the filter; '**' that is not a whole segment ('**b', 'a**')."""
+    if any("**" in seg and seg != "**" for seg in s.split("?", 1)[0].split("/")):
+        return True
     return "?" in s and any(ch in s.split("?", 1)[1] for ch in "%+;#~ ")
 
 
